@@ -286,3 +286,98 @@ Proof.
     eauto.
 Qed.
 End Iff.
+
+(* ---- TLS 1.3: acceptance set = image, for every amount of zero padding ------------------------------------ *)
+Section Iff13.
+Context {CS : Type}.
+Variable P : Prim CS.
+Variable R : CS -> CS -> Prop.
+Variable c : Cfg.
+
+Lemma protect_with_tls13 (s : St CS) ty data ch : mode_ok P R MTls13 c -> ty <> 20 ->
+  protect_with c P s (ty, data) ch (3, 3) =
+  ('(s1, body) <~ aead_body_with c P s 23 (data ++ [ty] ++ zeros (ch_zeros ch)) ch ;; ROk (s1, (23, (3, 3), body))).
+Proof.
+  intros [_ [Hv [H13 [Henc [Haead _]]]]] H20.
+  assert (Ht13 : is_tls13_plus c = true) by (unfold is_tls13_plus; rewrite Hv, H13; reflexivity).
+  unfold protect_with. rewrite Ht13, Henc.
+  destruct (ty =? 20) eqn:E; [apply Z.eqb_eq in E; contradiction|]. cbn [andb negb].
+  rewrite Hv. change (ver_lt (3, 3) (3, 4)) with true. change (23 =? 20) with false. cbn [andb].
+  rewrite Haead. cbn [andb]. reflexivity.
+Qed.
+
+Lemma aead_body_tls13 (s : St CS) inner ch : mode_ok P R MTls13 c ->
+  0 <= st_seq s < 18446744073709551616 -> zlen inner + c_tag c < 65536 ->
+  exists nonce, get_nonce c (be_bytes 8 (st_seq s)) = ROk nonce /\
+    aead_body_with c P s 23 inner ch =
+      ROk ({| st_cs := st_cs s; st_seq := st_seq s + 1 |},
+           pr_seal P nonce inner (aad13 23 (3, 3) (zlen inner + c_tag c))).
+Proof.
+  intros [_ [Hv [H13 [Henc [Haead [Hok [Htag [Hnl [Hn8 _]]]]]]]]] Hs Hl.
+  assert (Ht13 : is_tls13_plus c = true) by (unfold is_tls13_plus; rewrite Hv, H13; reflexivity).
+  assert (Hexp : explicit_nonce c = false) by (unfold explicit_nonce; rewrite Ht13; apply andb_false_r).
+  assert (Hux : uses_xor_nonce c = true) by (unfold uses_xor_nonce; rewrite Ht13; apply orb_true_r).
+  assert (Hgn : exists nonce, get_nonce c (be_bytes 8 (st_seq s)) = ROk nonce).
+  { unfold get_nonce. rewrite Hux, zlen_be_bytes. change (Z.of_nat 8) with 8.
+    destruct (zlen (c_fixed_nonce c) <? 8) eqn:E; [lia|]. eauto. }
+  destruct Hgn as [nonce Hgn]. exists nonce. split; [exact Hgn|].
+  unfold aead_body_with. rewrite next_seq_ok by lia. cbn [rbind]. rewrite Ht13.
+  pose proof (zlen_nonneg inner).
+  change (is_byte 23) with true. rewrite (div256_byte (zlen inner + c_tag c)) by lia. cbn [andb negb].
+  rewrite Hexp, Hgn. cbn [rbind]. reflexivity.
+Qed.
+
+Theorem accept_iff_image_tls13_l (s r : St CS) body ty data :
+  mode_ok P R MTls13 c -> aead_tight P -> sync R s r -> ty <> 20 -> zlen body < 65536 ->
+  ((exists r', unprotect c P r (23, (3, 3), body) = ROk (r', (ty, data))) <->
+   (ty <> 0 /\ zlen data <= c_recv_limit c /\ st_seq s < 18446744073709551616 /\
+    exists k s', 0 <= k /\ zlen data + 1 + k <= c_recv_limit c + 1 /\
+      protect_with c P s (ty, data) {| ch_pad := []; ch_ivb := []; ch_nonce := []; ch_zeros := k |} (3, 3)
+        = ROk (s', (23, (3, 3), body)))).
+Proof.
+  intros Hmode Htight Hsync H20 Hb16. pose proof Hsync as [HR [Hseq H0]].
+  pose proof Hmode as [[Hl1 [Hl2 Hl3]] [Hv [H13 [Henc [Haead [Hok [Htag [Hnl [Hn8 _]]]]]]]]].
+  assert (Ht13 : is_tls13_plus c = true) by (unfold is_tls13_plus; rewrite Hv, H13; reflexivity).
+  assert (Hexp : explicit_nonce c = false) by (unfold explicit_nonce; rewrite Ht13; apply andb_false_r).
+  split.
+  - intros [r' H].
+    destruct (tls13_accept P R c s r r' (3, 3) body ty data Hmode Htight Hsync H)
+      as [_ [Hty [Hdl [k [nonce [Hk [Hkl [Hgn [Hbody [Hsy Hsq]]]]]]]]]].
+    assert (Hsr : st_seq s < 18446744073709551616).
+    { (* the receiver consumed a sequence number *)
+      destruct (unprotect_inv_tls13 R c P r r' (3, 3) body ty data Hmode H) as [inner [A _]].
+      unfold decrypt_and_unseal in A. apply rbind_ok_inv in A. destruct A as [[sb s2] [Hns _]].
+      apply next_seq_inv in Hns. lia. }
+    split; [exact Hty|]. split; [exact Hdl|]. split; [exact Hsr|].
+    exists k. eexists. split; [exact Hk|]. split; [exact Hkl|].
+    rewrite (protect_with_tls13 s ty data _ Hmode H20). cbn [ch_zeros].
+    set (inner := data ++ [ty] ++ zeros k) in *.
+    destruct (Hok nonce inner (aad13 23 (3, 3) (zlen body))) as [_ Hsl]. rewrite <- Hbody in Hsl.
+    destruct (aead_body_tls13 s inner {| ch_pad := []; ch_ivb := []; ch_nonce := []; ch_zeros := k |} Hmode ltac:(lia) ltac:(lia))
+      as [n2 [Hg2 Hab]].
+    rewrite Hseq in Hg2. rewrite Hgn in Hg2. injection Hg2 as <-.
+    rewrite Hab. cbn [rbind]. rewrite <- Hsl, <- Hbody. reflexivity.
+  - intros [Hty [Hdl [Hsr [k [s' [Hk [Hkl Hpw]]]]]]].
+    rewrite (protect_with_tls13 s ty data _ Hmode H20) in Hpw. cbn [ch_zeros] in Hpw.
+    set (inner := data ++ [ty] ++ zeros k) in *.
+    assert (Hil : zlen inner = zlen data + 1 + k).
+    { unfold inner. rewrite !zlen_app, zlen_zeros by lia. change (zlen [ty]) with 1. lia. }
+    pose proof (zlen_nonneg data) as Hd0.
+    destruct (aead_body_tls13 s inner {| ch_pad := []; ch_ivb := []; ch_nonce := []; ch_zeros := k |} Hmode ltac:(lia) ltac:(lia))
+      as [nonce [Hgn Hab]].
+    rewrite Hab in Hpw. cbn [rbind] in Hpw. injection Hpw as <- Hbody.
+    destruct (Hok nonce inner (aad13 23 (3, 3) (zlen inner + c_tag c))) as [Hopen Hsl].
+    rewrite Hbody in Hopen, Hsl.
+    unfold unprotect.
+    destruct (zlen body >? c_recv_limit c + 2048) eqn:E1; [lia|]. rewrite H13. cbn [andb].
+    destruct (zlen body >? c_recv_limit c + 256) eqn:E2; [lia|].
+    rewrite Ht13, Henc, Haead. change (23 =? 20) with false. change (23 =? 21) with false. cbn [andb].
+    unfold decrypt_and_unseal. rewrite next_seq_ok by lia. cbn [rbind]. rewrite Hexp, <- Hseq, Hgn. cbn [rbind].
+    destruct (c_tag c >? zlen body) eqn:E3; [lia|]. rewrite Ht13.
+    change (23 =? 23) with true. change (pairZ_eqb (3, 3) (3, 3)) with true. cbn [negb rbind].
+    replace (zlen inner + c_tag c) with (zlen body) in Hopen by lia. rewrite Hopen. cbn [rbind].
+    destruct (zlen inner >? c_recv_limit c + 1) eqn:E4; [lia|].
+    unfold inner. rewrite de_pad_spec by exact Hty. cbn [rbind].
+    destruct (zlen data >? c_recv_limit c) eqn:E5; [lia|]. eauto.
+Qed.
+End Iff13.
